@@ -273,7 +273,21 @@ func (w *world) genTx() (*types.Transaction, *txDesc, error) {
 		mtx = w.genComposite(d)
 	case k < 5: // ONG transfer by the payer
 		d.Kind = "ong-transfer"
-		switch c.Intn(6) {
+		fee := 20000 * d.Price
+		switch c.Intn(9) {
+		case 6, 7, 8: // leaves exactly 0, fee-1, fee or fee+1
+			if d.Price == 0 || d.Price > 5000 {
+				d.Price = []uint64{1, 500, 2500}[c.Intn(3)]
+				fee = 20000 * d.Price
+			}
+			if d.Limit < 20000 || d.Limit > 1<<40 {
+				d.Limit = 20000 + uint64(c.Intn(60000))
+			}
+			left := []uint64{0, fee - 1, fee, fee + 1}[c.Intn(4)]
+			if bal > left {
+				d.Amount = bal - left
+			}
+			d.N = int(left)
 		case 0:
 			d.Amount = bal // everything: nothing left for the fee
 		case 1:
